@@ -229,3 +229,441 @@ Proof.
     rewrite (sw_run isxdigit isxdigit_ascii (h :: hs) (suf ++ rest) Hhs S4).
     cbv zeta. rewrite S1, S8. apply int_tail_suffix; assumption.
 Qed.
+
+(* ------------------------------------------------------------------ 6.4.4.2: floating constants *)
+Lemma float_tail_suffix suf rest : In suf float_suffixes -> num_boundary rest -> float_tail (suf ++ rest) = (K_FloatingConstantToken, rest).
+Proof.
+  intros Hs [Hb _]. unfold float_tail.
+  assert (Hij : in2 (ahead rest) 105 106 = false) by (apply na_in2; [exact Hb|reflexivity|reflexivity]).
+  assert (Hfs : float_suffix rest = rest).
+  { unfold float_suffix. rewrite (na_neq _ 102 Hb eq_refl), (na_neq _ 108 Hb eq_refl), (na_neq _ 70 Hb eq_refl), (na_neq _ 76 Hb eq_refl). reflexivity. }
+  cbn in Hs. destruct Hs as [<-|Hs].
+  { cbn [app]. rewrite Hij, Hfs, Hij. apply finish_boundary. exact Hb. }
+  assert (Hl : forall c, In c [102; 108; 70; 76] -> float_suffix (c :: rest) = rest /\ in2 c 105 106 = false).
+  { intros c Hc. cbn in Hc. repeat (destruct Hc as [<-|Hc]; [split; [unfold float_suffix; cbn [ahead]; apply adv_cons|]; reflexivity|]). contradiction. }
+  repeat (destruct Hs as [<-|Hs];
+          [ cbn [app ahead];
+            match goal with |- context [float_suffix (?c :: rest)] =>
+              destruct (Hl c ltac:(cbn; tauto)) as [E1 E2]; rewrite E2, E1, Hij; apply finish_boundary; exact Hb end | ]).
+  contradiction.
+Qed.
+
+Definition fstop (c : N) : Prop := isdigit c = false /\ in2 c 101 69 = false.
+Lemma float_suffix_head_stop suf rest : In suf float_suffixes -> num_boundary rest -> fstop (ahead (suf ++ rest)).
+Proof.
+  intros Hs [Hb _]. cbn in Hs.
+  destruct Hs as [<-|Hs]; [cbn [app]; split; [apply na_isdigit; exact Hb | apply na_in2; [exact Hb|reflexivity|reflexivity]]|].
+  repeat (destruct Hs as [<-|Hs]; [split; reflexivity|]). contradiction.
+Qed.
+
+Lemma sign_digits sg d s : (sg = [] \/ sg = [43] \/ sg = [45]) -> isdigit d = true -> sign (sg ++ d :: s) = d :: s.
+Proof.
+  intros Hsg Hd. unfold sign. destruct Hsg as [->|[->| ->]]; cbn [app ahead].
+  - assert (E : in2 d 43 45 = false).
+    { unfold isdigit in Hd. apply andb_true_iff in Hd as [H1 H2]. apply N.leb_le in H1, H2. unfold in2. apply orb_false_iff; split; apply N.eqb_neq; lia. }
+    rewrite E. reflexivity.
+  - change (in2 43 43 45) with true. cbv iota. apply adv_cons. reflexivity.
+  - change (in2 45 43 45) with true. cbv iota. apply adv_cons. reflexivity.
+Qed.
+
+Lemma exp_part_consumes ex s : exponent 101 69 ex -> isdigit (ahead s) = false -> exp_part (ex ++ s) = s.
+Proof.
+  intros [e sg d ds He Hsg Hds] Hs. unfold exp_part. cbn [app ahead]. rewrite He.
+  assert (Emb : is_mb e = false) by (destruct (in2_elim _ _ _ He) as [->| ->]; reflexivity).
+  rewrite (adv_cons e _ Emb). rewrite <- app_assoc. cbn [app].
+  inversion Hds as [|? ? Hd Hds']; subst. rewrite (sign_digits sg d _ Hsg Hd).
+  unfold digit_seq. change (d :: ds ++ s) with ((d :: ds) ++ s). apply sw_run; [exact isdigit_ascii|exact Hds|exact Hs].
+Qed.
+Lemma bin_exp_part_consumes ex s : exponent 112 80 ex -> isdigit (ahead s) = false -> bin_exp_part (ex ++ s) = s.
+Proof.
+  intros [e sg d ds He Hsg Hds] Hs. unfold bin_exp_part. cbn [app ahead]. rewrite He.
+  assert (Emb : is_mb e = false) by (destruct (in2_elim _ _ _ He) as [->| ->]; reflexivity).
+  rewrite (adv_cons e _ Emb). rewrite <- app_assoc. cbn [app].
+  inversion Hds as [|? ? Hd Hds']; subst. rewrite (sign_digits sg d _ Hsg Hd).
+  unfold digit_seq. change (d :: ds ++ s) with ((d :: ds) ++ s). apply sw_run; [exact isdigit_ascii|exact Hds|exact Hs].
+Qed.
+
+Lemma exponent_head c1 c2 ex s : exponent c1 c2 ex -> in2 (ahead (ex ++ s)) c1 c2 = true.
+Proof. intros [e sg d ds He _ _]. cbn [app ahead]. exact He. Qed.
+
+(** after the digits of the fraction: exponent-part_opt floating-suffix_opt *)
+Lemma at_exponent_tail ex suf rest : opt (exponent 101 69) ex -> In suf float_suffixes -> num_boundary rest ->
+  at_exponent (ex ++ suf ++ rest) = (K_FloatingConstantToken, rest).
+Proof.
+  intros Hex Hs Hb. unfold at_exponent. destruct (float_suffix_head_stop suf rest Hs Hb) as [F1 F2].
+  destruct Hex as [->|Hex].
+  - cbn [app]. unfold exp_part. rewrite F2. apply float_tail_suffix; assumption.
+  - rewrite (exp_part_consumes ex _ Hex F1). apply float_tail_suffix; assumption.
+Qed.
+
+Lemma at_period_tail ds2 ex suf rest : all isdigit ds2 -> opt (exponent 101 69) ex -> In suf float_suffixes -> num_boundary rest ->
+  at_period (ds2 ++ ex ++ suf ++ rest) = (K_FloatingConstantToken, rest).
+Proof.
+  intros Hds Hex Hs Hb. unfold at_period, digit_seq.
+  assert (Hstop : isdigit (ahead (ex ++ suf ++ rest)) = false).
+  { destruct Hex as [->|Hex]; [cbn [app]; apply (float_suffix_head_stop suf rest Hs Hb)|].
+    pose proof (exponent_head _ _ ex (suf ++ rest) Hex) as He. destruct (in2_elim _ _ _ He) as [E|E]; rewrite E; reflexivity. }
+  rewrite (sw_run isdigit isdigit_ascii ds2 _ Hds Hstop). apply at_exponent_tail; assumption.
+Qed.
+
+(** the digit loop up to the period or the exponent *)
+Lemma num_loop_frac ds s : all isdigit ds -> forall fuel, (length ds < fuel)%nat -> num_loop fuel (ds ++ 46 :: s) = at_period s.
+Proof.
+  intros Hds. induction ds as [|d ds IH]; intros fuel Hf.
+  - destruct fuel as [|f]; [lia|]. cbn [app num_loop ahead]. change (46 =? 0) with false. change (46 =? 46) with true. cbv iota.
+    rewrite adv_cons by reflexivity. reflexivity.
+  - inversion Hds as [|? ? Hd Hds']; subst. destruct fuel as [|f]; [cbn in Hf; lia|].
+    destruct (digit_facts d Hd) as (D1 & D2 & D3).
+    cbn [app num_loop ahead]. rewrite D1, D2, D3, Hd. cbn [negb]. rewrite (adv_cons d _ (isdigit_ascii d Hd)). apply IH; [assumption|cbn in Hf; lia].
+Qed.
+Lemma num_loop_exp ds s : all isdigit ds -> in2 (ahead s) 101 69 = true -> forall fuel, (length ds < fuel)%nat -> num_loop fuel (ds ++ s) = at_exponent s.
+Proof.
+  intros Hds He. induction ds as [|d ds IH]; intros fuel Hf.
+  - destruct fuel as [|f]; [lia|]. cbn [app num_loop]. rewrite He.
+    destruct (in2_elim _ _ _ He) as [E|E]; rewrite E; reflexivity.
+  - inversion Hds as [|? ? Hd Hds']; subst. destruct fuel as [|f]; [cbn in Hf; lia|].
+    destruct (digit_facts d Hd) as (D1 & D2 & D3).
+    cbn [app num_loop ahead]. rewrite D1, D2, D3, Hd. cbn [negb]. rewrite (adv_cons d _ (isdigit_ascii d Hd)). apply IH; [assumption|cbn in Hf; lia].
+Qed.
+
+(** the octal run at the start of a constant that begins with 0 leaves digits *)
+Lemma skipw_isoct_digits ds s : all isdigit ds -> isoct (ahead s) = false ->
+  forall fuel, (length ds <= fuel)%nat -> exists ds', skipw isoct fuel (ds ++ s) = ds' ++ s /\ all isdigit ds' /\ (length ds' <= length ds)%nat.
+Proof.
+  intros Hds Hs. induction ds as [|d ds IH]; intros fuel Hf.
+  - exists []. cbn [app]. split; [|split; [constructor|lia]]. destruct fuel; cbn [skipw]; [reflexivity|]. rewrite Hs. reflexivity.
+  - inversion Hds as [|? ? Hd Hds']; subst. destruct fuel as [|f]; [cbn in Hf; lia|].
+    cbn [app skipw ahead]. destruct (isoct d) eqn:Eo.
+    + rewrite (adv_cons d _ (isdigit_ascii d Hd)). destruct (IH Hds' f ltac:(cbn in Hf; lia)) as [ds' [E [A L]]].
+      exists ds'. split; [exact E|split; [exact A|cbn; lia]].
+    + exists (d :: ds). split; [reflexivity|split; [exact Hds|lia]].
+Qed.
+
+(** a decimal floating constant that starts with a digit, from the first digit on: [k] tells how the digit loop ends *)
+Lemma number_decimal d ds1 s : all isdigit (d :: ds1) ->
+  (ahead s = 46 \/ in2 (ahead s) 101 69 = true) ->
+  number d (ds1 ++ s) = num_loop (S (length (ds1 ++ s))) (ds1 ++ s).
+Proof.
+  intros Hds Hs. inversion Hds as [|? ? Hd Hds1]; subst.
+  assert (Hs_o : isoct (ahead s) = false) by (destruct Hs as [E|E]; [rewrite E; reflexivity|destruct (in2_elim _ _ _ E) as [E'|E']; rewrite E'; reflexivity]).
+  assert (Hs_x : in2 (ahead s) 120 88 = false /\ in2 (ahead s) 98 66 = false)
+    by (destruct Hs as [E|E]; [rewrite E; split; reflexivity|destruct (in2_elim _ _ _ E) as [E'|E']; rewrite E'; split; reflexivity]).
+  (* one more unit of fuel changes nothing: the loop ends at the period / exponent *)
+  assert (Fuel : forall t, all isdigit t -> forall f1 f2, (length t < f1)%nat -> (length t < f2)%nat -> num_loop f1 (t ++ s) = num_loop f2 (t ++ s)).
+  { intros t Ht f1 f2 L1 L2. destruct Hs as [E|E].
+    - destruct s as [|c s']; [discriminate E|]. cbn [ahead] in E. subst c. rewrite !num_loop_frac by assumption. reflexivity.
+    - rewrite !num_loop_exp by assumption. reflexivity. }
+  assert (Len : (length ds1 < length (ds1 ++ s))%nat).
+  { rewrite app_length. destruct s; [destruct Hs as [E|E]; [discriminate E|discriminate E]|cbn; lia]. }
+  unfold number. destruct (d =? 48) eqn:E48; cbn [andb]; [|apply Fuel; [assumption|exact Len|lia]].
+  destruct (ahead (ds1 ++ s) =? 0) eqn:E0; cbn [negb]; [apply Fuel; [assumption|exact Len|lia]|].
+  destruct ds1 as [|o ds1'].
+  - cbn [app] in *. destruct Hs_x as [X1 X2]. rewrite X1, X2, Hs_o. apply Fuel with (t := []); [constructor|cbn; destruct s; [discriminate|cbn; lia]|cbn; lia].
+  - inversion Hds1 as [|? ? Ho Hds1']; subst. cbn [app ahead].
+    assert (X1 : in2 o 120 88 = false /\ in2 o 98 66 = false).
+    { unfold isdigit in Ho. apply andb_true_iff in Ho as [H1 H2]. apply N.leb_le in H1, H2. unfold in2. split; apply orb_false_iff; split; apply N.eqb_neq; lia. }
+    destruct X1 as [X1 X2]. rewrite X1, X2. destruct (isoct o) eqn:Eo; [|apply (Fuel (o :: ds1')); [assumption|exact Len|cbn in Len |- *; lia]].
+    rewrite (adv_cons o _ (isdigit_ascii o Ho)). unfold sw.
+    destruct (skipw_isoct_digits ds1' s Hds1' Hs_o (length (ds1' ++ s)) ltac:(rewrite app_length; lia)) as [ds' [E [A L]]].
+    rewrite E. cbv zeta.
+    assert (C : (negb (isdigit (ahead (ds' ++ s))) && negb (ahead (ds' ++ s) =? 46) && negb (in2 (ahead (ds' ++ s)) 101 69)) = false).
+    { destruct ds' as [|x ds'']; cbn [app ahead].
+      - destruct Hs as [E'|E']; [rewrite E'; reflexivity|rewrite E'; cbn [negb]; rewrite !andb_false_r; reflexivity].
+      - inversion A; subst. match goal with H : isdigit x = true |- _ => rewrite H end. reflexivity. }
+    rewrite C.
+    (* the loop over what the octal run left equals the loop over all the digits *)
+    assert (Lds' : (length ds' < length (ds' ++ s))%nat) by (rewrite app_length; destruct s; [destruct Hs as [E'|E']; discriminate E'|cbn; lia]).
+    destruct Hs as [E'|E'].
+    + destruct s as [|c s']; [discriminate E'|]. cbn [ahead] in E'. subst c.
+      rewrite (num_loop_frac ds' s' A _ Lds'). rewrite (num_loop_frac (o :: ds1') s' Hds1); [reflexivity|cbn; rewrite app_length; cbn; lia].
+    + rewrite (num_loop_exp ds' s A E' _ Lds'). rewrite (num_loop_exp (o :: ds1') s Hds1 E'); [reflexivity|cbn; rewrite app_length; destruct s; [discriminate E'|cbn; lia]].
+Qed.
+
+Lemma exponent_not_xdigit ex s : exponent 112 80 ex -> isxdigit (ahead (ex ++ s)) = false.
+Proof. intros H. pose proof (exponent_head _ _ ex s H) as He. destruct (in2_elim _ _ _ He) as [E|E]; rewrite E; reflexivity. Qed.
+
+Theorem number_float w rest : float_const w -> num_boundary rest ->
+  forall c0 tl, w = c0 :: tl -> c0 <> 46 -> number c0 (tl ++ rest) = (K_FloatingConstantToken, rest).
+Proof.
+  intros Hw Hb c0 tl E Hc0.
+  destruct Hw as [d ds1 ds2 ex suf Hds1 Hds2 Hex Hs | d ds2 ex suf Hds Hex Hs | d ds1 ex suf Hds1 Hex Hs
+                 | x hs1 hs2 ex suf Hx Hh1 Hh2 Hne Hex Hs | x h hs ex suf Hx Hhs Hex Hs].
+  - (* d ds1 . ds2 ex suf *)
+    cbn [app] in E. inversion E; subst c0 tl; clear E.
+    replace ((ds1 ++ 46 :: ds2 ++ ex ++ suf) ++ rest) with (ds1 ++ 46 :: (ds2 ++ ex ++ suf ++ rest))
+      by (rewrite <- !app_assoc; cbn [app]; rewrite <- !app_assoc; reflexivity).
+    rewrite (number_decimal d ds1 (46 :: (ds2 ++ ex ++ suf ++ rest)) Hds1 (or_introl eq_refl)).
+    inversion Hds1; subst. rewrite num_loop_frac; [apply at_period_tail; assumption|assumption|rewrite app_length; cbn; lia].
+  - (* . d ds2 *) cbn [app] in E. inversion E. congruence.
+  - (* d ds1 ex suf *)
+    cbn [app] in E. inversion E; subst c0 tl; clear E.
+    replace ((ds1 ++ ex ++ suf) ++ rest) with (ds1 ++ (ex ++ suf ++ rest)) by (rewrite <- !app_assoc; reflexivity).
+    pose proof (exponent_head _ _ ex (suf ++ rest) Hex) as He.
+    rewrite (number_decimal d ds1 _ Hds1 (or_intror He)).
+    inversion Hds1; subst. rewrite num_loop_exp; [apply at_exponent_tail; [right; exact Hex|assumption|assumption]|assumption|exact He|].
+    rewrite app_length. destruct ex; [inversion Hex|cbn; lia].
+  - (* 0 x hs1 . hs2 ex suf *)
+    inversion E; subst c0 tl; clear E.
+    replace ((x :: hs1 ++ 46 :: hs2 ++ ex ++ suf) ++ rest) with (x :: hs1 ++ 46 :: (hs2 ++ ex ++ suf ++ rest))
+      by (cbn [app]; rewrite <- !app_assoc; cbn [app]; rewrite <- !app_assoc; reflexivity).
+    unfold number. change (48 =? 48) with true. cbn [andb ahead].
+    assert (X0 : (x =? 0) = false) by (destruct (in2_elim _ _ _ Hx) as [->| ->]; reflexivity).
+    assert (Xmb : is_mb x = false) by (destruct (in2_elim _ _ _ Hx) as [->| ->]; reflexivity).
+    rewrite X0, Hx. cbn [negb]. rewrite (adv_cons x _ Xmb).
+    rewrite (sw_run isxdigit isxdigit_ascii hs1 (46 :: (hs2 ++ ex ++ suf ++ rest)) Hh1 eq_refl). cbv zeta. cbn [ahead]. change (46 =? 46) with true. cbv iota.
+    rewrite adv_cons by reflexivity.
+    rewrite (sw_run isxdigit isxdigit_ascii hs2 _ Hh2 (exponent_not_xdigit ex _ Hex)).
+    rewrite (bin_exp_part_consumes ex _ Hex (proj1 (float_suffix_head_stop suf rest Hs Hb))).
+    apply float_tail_suffix; assumption.
+  - (* 0 x h hs ex suf *)
+    inversion E; subst c0 tl; clear E.
+    replace ((x :: (h :: hs) ++ ex ++ suf) ++ rest) with (x :: (h :: hs) ++ (ex ++ suf ++ rest))
+      by (cbn [app]; rewrite <- !app_assoc; reflexivity).
+    unfold number. change (48 =? 48) with true. cbn [andb ahead app].
+    assert (X0 : (x =? 0) = false) by (destruct (in2_elim _ _ _ Hx) as [->| ->]; reflexivity).
+    assert (Xmb : is_mb x = false) by (destruct (in2_elim _ _ _ Hx) as [->| ->]; reflexivity).
+    rewrite X0, Hx. cbn [negb]. rewrite (adv_cons x _ Xmb).
+    assert (EQ : (hs ++ ex ++ suf) ++ rest = hs ++ ex ++ suf ++ rest) by (rewrite <- !app_assoc; reflexivity). rewrite EQ.
+    change (h :: hs ++ ex ++ suf ++ rest) with ((h :: hs) ++ ex ++ suf ++ rest).
+    rewrite (sw_run isxdigit isxdigit_ascii (h :: hs) _ Hhs (exponent_not_xdigit ex _ Hex)). cbv zeta.
+    pose proof (exponent_head _ _ ex (suf ++ rest) Hex) as He.
+    assert (N46 : (ahead (ex ++ suf ++ rest) =? 46) = false) by (destruct (in2_elim _ _ _ He) as [E'|E']; rewrite E'; reflexivity).
+    rewrite N46, He.
+    rewrite (bin_exp_part_consumes ex _ Hex (proj1 (float_suffix_head_stop suf rest Hs Hb))).
+    apply float_tail_suffix; assumption.
+Qed.
+
+(** a floating constant that starts with the period: the switch hands the text after the period to this sub-lexer *)
+Theorem period_float d ds2 ex suf rest : all isdigit (d :: ds2) -> opt (exponent 101 69) ex -> In suf float_suffixes -> num_boundary rest ->
+  at_period (((d :: ds2) ++ ex ++ suf) ++ rest) = (K_FloatingConstantToken, rest).
+Proof.
+  intros Hds Hex Hs Hb. replace (((d :: ds2) ++ ex ++ suf) ++ rest) with ((d :: ds2) ++ ex ++ suf ++ rest) by (rewrite <- !app_assoc; reflexivity).
+  apply at_period_tail; assumption.
+Qed.
+
+(* ------------------------------------------------------------------ 6.4.2.1: identifiers *)
+Lemma isalnum__idc b : isalnum_ b = true -> isidc b = true.
+Proof. unfold isalnum_, isidc. intros H. apply orb_true_iff in H as [H|H]; rewrite H; rewrite ?orb_true_r; reflexivity. Qed.
+
+Lemma ident_run l rest : all isalnum_ l -> isidc (ahead rest) = false -> ident (l ++ rest) = (K_IdentifierToken, rest).
+Proof.
+  intros Hl Hr. unfold ident. f_equal.
+  assert (Hp : forall b, (fun b => isalnum_ b) b = true -> is_mb b = false) by (intros b; apply isalnum__ascii).
+  (* sw over isidc: every byte of l satisfies it and is ASCII *)
+  unfold sw. assert (G : forall l fuel, all isalnum_ l -> (length l <= fuel)%nat -> skipw isidc fuel (l ++ rest) = rest).
+  { clear l Hl. induction l as [|b l IH]; intros fuel Hl Hf.
+    - cbn [app]. destruct fuel; cbn [skipw]; [reflexivity|]. rewrite Hr. reflexivity.
+    - inversion Hl; subst. destruct fuel as [|f]; [cbn in Hf; lia|]. cbn [app skipw ahead].
+      rewrite (isalnum__idc b) by assumption. rewrite (adv_cons b _ (isalnum__ascii b ltac:(assumption))). apply IH; [assumption|cbn in Hf; lia]. }
+  apply G; [exact Hl|rewrite app_length; lia].
+Qed.
+
+Lemma alnum_not_quote b : isalnum_ b = true -> (b =? 34) = false /\ (b =? 39) = false.
+Proof. intros H. split; (destruct (N.eqb_spec b 34) as [->|]; [discriminate H|]) || idtac; destruct (N.eqb_spec b 39) as [->|]; try discriminate H; try reflexivity;
+       destruct (N.eqb_spec b 34) as [->|]; try discriminate H; reflexivity. Qed.
+
+Lemma idc_stop_neq rest c : isidc (ahead rest) = false -> isidc c = true -> (ahead rest =? c) = false.
+Proof. intros H Hc. destruct (N.eqb_spec (ahead rest) c) as [E|]; [rewrite E in H; congruence|reflexivity]. Qed.
+
+Theorem word_ident w rest : ident_spelling w -> ident_boundary w rest ->
+  forall c cs, w = c :: cs -> word c (cs ++ rest) = (K_IdentifierToken, rest).
+Proof.
+  intros Hw [Hr Hq] c cs E. destruct Hw as [c' cs' Hc Hcs]. inversion E; subst c' cs'; clear E.
+  unfold word. destruct ((c =? 76) || (c =? 117) || (c =? 85) || (c =? 82)) eqn:P.
+  2:{ assert (A : (isalpha c || (c =? 95) || (c =? 36) || is_mb c) = true).
+      { unfold isnondigit in Hc. apply orb_true_iff in Hc as [H|H]; rewrite H; rewrite ?orb_true_r; reflexivity. }
+      rewrite A. apply ident_run; assumption. }
+  (* words that begin with a letter that can prefix a literal *)
+  assert (R82 : (ahead rest =? 82) = false) by (apply idc_stop_neq; [exact Hr|reflexivity]).
+  assert (R56 : (ahead rest =? 56) = false) by (apply idc_stop_neq; [exact Hr|reflexivity]).
+  assert (Pc : c = 76 \/ c = 117 \/ c = 85 \/ c = 82).
+  { repeat (apply orb_true_iff in P as [P|P]); apply N.eqb_eq in P; auto. }
+  destruct cs as [|x cs1].
+  - (* the word is the letter alone *)
+    assert (W : In [c] literal_prefix_words) by (destruct Pc as [->|[->|[->| ->]]]; cbn; tauto).
+    destruct (Hq W) as [Q1 Q2]. apply N.eqb_neq in Q1, Q2. cbn [app]. rewrite Q1, Q2, R82, R56. rewrite !andb_false_r.
+    apply (ident_run [] rest); [constructor|exact Hr].
+  - inversion Hcs as [|? ? Hx Hcs1]; subst. destruct (alnum_not_quote x Hx) as [X34 X39].
+    cbn [app ahead]. rewrite X34, X39.
+    destruct (negb (c =? 82) && (x =? 82)) eqn:T1.
+    + (* c R ... *)
+      apply andb_true_iff in T1 as [T1a T1b]. apply N.eqb_eq in T1b. subst x.
+      rewrite adv_cons by reflexivity.
+      destruct cs1 as [|y cs2].
+      * assert (W : In [c; 82] literal_prefix_words).
+        { destruct Pc as [->|[->|[->| ->]]]; cbn; try tauto. discriminate T1a. }
+        destruct (Hq W) as [Q1 _]. apply N.eqb_neq in Q1. cbn [app]. rewrite Q1. apply (ident_run [] rest); [constructor|exact Hr].
+      * inversion Hcs1; subst. cbn [app ahead]. rewrite (proj1 (alnum_not_quote y ltac:(assumption))). apply (ident_run (y :: cs2)); assumption.
+    + destruct ((c =? 117) && (x =? 56)) eqn:T2.
+      * apply andb_true_iff in T2 as [T2a T2b]. apply N.eqb_eq in T2a, T2b. subst c x.
+        rewrite adv_cons by reflexivity.
+        destruct cs1 as [|y cs2].
+        -- assert (W : In [117; 56] literal_prefix_words) by (cbn; tauto).
+           destruct (Hq W) as [Q1 Q2]. apply N.eqb_neq in Q1, Q2. cbn [app]. cbv zeta. rewrite Q1, Q2, R82. apply (ident_run [] rest); [constructor|exact Hr].
+        -- inversion Hcs1 as [|? ? Hy Hcs2]; subst. destruct (alnum_not_quote y Hy) as [Y34 Y39]. cbn [app ahead]. cbv zeta. rewrite Y34, Y39.
+           destruct (y =? 82) eqn:Y82.
+           ++ apply N.eqb_eq in Y82. subst y. rewrite adv_cons by reflexivity.
+              destruct cs2 as [|z cs3].
+              ** assert (W : In [117; 56; 82] literal_prefix_words) by (cbn; tauto).
+                 destruct (Hq W) as [Q1 _]. apply N.eqb_neq in Q1. cbn [app]. rewrite Q1. apply (ident_run [] rest); [constructor|exact Hr].
+              ** inversion Hcs2; subst. cbn [app ahead]. rewrite (proj1 (alnum_not_quote z ltac:(assumption))). apply (ident_run (z :: cs3)); assumption.
+           ++ apply (ident_run (y :: cs2)); assumption.
+      * apply (ident_run (x :: cs1)); assumption.
+Qed.
+
+(* ------------------------------------------------------------------ 6.4.4.4 / 6.4.5: character constants and string literals *)
+Lemma escape_facts e : escape_start e = true -> (e =? 0) = false /\ isspace e = false /\ is_mb e = false.
+Proof.
+  unfold escape_start. intros H.
+  repeat (apply orb_true_iff in H as [H|H]);
+    try (apply N.eqb_eq in H; subst e; repeat split; reflexivity).
+  unfold isoct in H. apply andb_true_iff in H as [H1 H2]. apply N.leb_le in H1, H2. repeat split.
+  - apply N.eqb_neq. lia.
+  - unfold isspace. apply orb_false_iff; split; [apply N.eqb_neq; lia|]. apply andb_false_iff. right. apply N.leb_gt. lia.
+  - apply lt128_not_mb. lia.
+Qed.
+
+Lemma backslash_escape e s : escape_start e = true -> backslash (92 :: e :: s) = s.
+Proof.
+  intros He. destruct (escape_facts e He) as (E0 & Esp & Emb). unfold backslash.
+  rewrite adv_cons by reflexivity. cbn [ahead]. rewrite E0, Esp. cbn [negb andb]. apply adv_cons. exact Emb.
+Qed.
+
+Lemma until_quote_body q body : (q = 34 \/ q = 39) -> qchars q body ->
+  forall rest fuel, (length body <= fuel)%nat -> until_quote fuel q (body ++ q :: rest) = q :: rest.
+Proof.
+  intros Hq Hb. induction Hb as [|b r Hbq Hb92 Hb10 Hb0 Hmb Hr IH|e r He Hr IH]; intros rest fuel Hf.
+  - cbn [app]. destruct fuel as [|f]; cbn [until_quote]; [reflexivity|]. cbn [ahead]. rewrite N.eqb_refl. rewrite orb_true_r. reflexivity.
+  - destruct fuel as [|f]; [cbn in Hf; lia|]. cbn [app until_quote ahead].
+    apply N.eqb_neq in Hbq, Hb92, Hb10, Hb0. rewrite Hb0, Hbq, Hb10, Hb92. cbn [orb]. rewrite (adv_cons b _ Hmb). apply IH. cbn in Hf; lia.
+  - destruct fuel as [|f]; [cbn in Hf; lia|]. cbn [app until_quote ahead].
+    assert (Q92 : (92 =? q) = false) by (destruct Hq as [->| ->]; reflexivity).
+    change (92 =? 0) with false. change (92 =? 10) with false. rewrite Q92. cbn [orb]. change (92 =? 92) with true. cbv iota.
+    change (92 :: e :: r ++ q :: rest) with (92 :: e :: (r ++ q :: rest)). rewrite (backslash_escape e _ He). apply IH. cbn in Hf; lia.
+Qed.
+
+Theorem quoted_literal q body rest : (q = 34 \/ q = 39) -> qchars q body -> quoted q (body ++ q :: rest) = rest.
+Proof.
+  intros Hq Hb. unfold quoted. rewrite (until_quote_body q body Hq Hb rest); [|rewrite app_length; lia].
+  cbn [ahead]. rewrite N.eqb_refl. apply adv_cons. destruct Hq as [->| ->]; reflexivity.
+Qed.
+
+(** the prefixed forms through the default case of the switch: L'c' u'c' U'c' and L"s" u"s" U"s" u8"s" *)
+Ltac prefix_step :=
+  repeat first
+    [ rewrite adv_cons by reflexivity
+    | progress cbn [ahead app]
+    | progress cbv zeta
+    | match goal with
+      | |- context [?a =? ?b] => is_ground a; is_ground b; let v := eval vm_compute in (a =? b) in change (a =? b) with v
+      end
+    | progress cbn [orb andb negb]
+    | progress cbv iota ].
+
+Theorem word_char_prefixed p body rest : In p [76; 117; 85] -> qchars 39 body ->
+  word p (39 :: body ++ 39 :: rest) = (chr_kind p, rest).
+Proof.
+  intros Hp Hb. cbn in Hp. unfold word.
+  repeat (destruct Hp as [<-|Hp]; [prefix_step; rewrite (quoted_literal 39 body rest (or_intror eq_refl) Hb); reflexivity|]). contradiction.
+Qed.
+
+Theorem word_string_prefixed p body rest : In p [76; 117; 85] -> qchars 34 body ->
+  word p (34 :: body ++ 34 :: rest) = (str_kind p, rest).
+Proof.
+  intros Hp Hb. cbn in Hp. unfold word.
+  repeat (destruct Hp as [<-|Hp]; [prefix_step; rewrite (quoted_literal 34 body rest (or_introl eq_refl) Hb); reflexivity|]). contradiction.
+Qed.
+
+Theorem word_string_u8 body rest : qchars 34 body -> word 117 (56 :: 34 :: body ++ 34 :: rest) = (str_kind 56, rest).
+Proof.
+  intros Hb. unfold word. prefix_step. rewrite (quoted_literal 34 body rest (or_introl eq_refl) Hb). reflexivity.
+Qed.
+
+(* ------------------------------------------------------------------ 6.4.9: comments *)
+Lemma plain_ascii_facts b : plain_ascii b = true -> (b =? 0) = false /\ is_mb b = false.
+Proof. unfold plain_ascii. intros H. apply andb_true_iff in H as [H1 H2]. apply negb_true_iff in H1, H2. auto. Qed.
+
+Lemma ahead_app_one (b : list N) x y t : ahead (b ++ x :: y :: t) = ahead (b ++ [x]).
+Proof. destruct b; reflexivity. Qed.
+
+Lemma block_loop_scan b t : all plain_ascii b -> no_close (b ++ [42]) = true ->
+  forall fuel, (length b + 2 <= fuel)%nat -> block_loop fuel (b ++ 42 :: 47 :: t) = 47 :: t.
+Proof.
+  intros Hb. induction b as [|c b IH]; intros Hn fuel Hf.
+  - destruct fuel as [|[|f]]; try (cbn in Hf; lia). cbn [app block_loop ahead]. change (42 =? 0) with false. change (negb (42 =? 42)) with false. cbv iota.
+    rewrite adv_cons by reflexivity. cbn [ahead]. reflexivity.
+  - inversion Hb as [|? ? Hc Hb']; subst. destruct (plain_ascii_facts c Hc) as [C0 Cmb].
+    cbn [app no_close] in Hn. apply andb_true_iff in Hn as [Hn1 Hn2].
+    destruct fuel as [|f]; [cbn in Hf; lia|]. cbn [app block_loop ahead]. rewrite C0.
+    rewrite (adv_cons c _ Cmb). destruct (c =? 42) eqn:E42; cbn [negb].
+    + rewrite ahead_app_one. cbn [andb] in Hn1. apply negb_true_iff in Hn1. rewrite Hn1. apply IH; [assumption|assumption|cbn in Hf; lia].
+    + apply IH; [assumption|assumption|cbn in Hf; lia].
+Qed.
+
+Lemma no_close_tl c l : no_close (c :: l) = true -> no_close l = true.
+Proof. cbn [no_close]. intros H. apply andb_true_iff in H as [_ H]. exact H. Qed.
+
+Lemma sw_isdot_suffix b x : all plain_ascii b -> no_close (b ++ [42]) = true -> isdot (ahead x) = false ->
+  forall fuel, (length b <= fuel)%nat -> exists b', skipw isdot fuel (b ++ x) = b' ++ x /\ all plain_ascii b' /\ no_close (b' ++ [42]) = true /\ (length b' <= length b)%nat.
+Proof.
+  intros Hb. induction b as [|c b IH]; intros Hn Hx fuel Hf.
+  - exists []. cbn [app]. repeat split; try assumption; try constructor. destruct fuel; cbn [skipw]; [reflexivity|]. rewrite Hx. reflexivity.
+  - inversion Hb as [|? ? Hc Hb']; subst. destruct fuel as [|f]; [cbn in Hf; lia|]. cbn [app skipw ahead].
+    destruct (isdot c) eqn:Ed.
+    + rewrite (adv_cons c _ (proj2 (plain_ascii_facts c Hc))).
+      destruct (IH Hb' (no_close_tl _ _ Hn) Hx f ltac:(cbn in Hf; lia)) as [b' [E [A [N L]]]].
+      exists b'. repeat split; try assumption. cbn; lia.
+    + exists (c :: b). repeat split; try assumption. lia.
+Qed.
+
+Theorem block_comment_scan body t : all plain_ascii body -> no_close (body ++ [42]) = true ->
+  snd (block_comment_at (body ++ 42 :: 47 :: t)) = t.
+Proof.
+  intros Hb Hn. unfold block_comment_at. cbv zeta. cbn [snd].
+  (* whatever the opening bytes, the scan resumes on a suffix of the body that is still free of the closing pair *)
+  assert (Fin : forall b', all plain_ascii b' -> no_close (b' ++ [42]) = true ->
+            (let s6 := block_loop (length (b' ++ 42 :: 47 :: t)) (b' ++ 42 :: 47 :: t) in if ahead s6 =? 0 then s6 else adv s6) = t).
+  { intros b' A N. cbv zeta. rewrite (block_loop_scan b' t A N); [|rewrite app_length; cbn; lia]. cbn [ahead]. change (47 =? 0) with false. cbv iota. apply adv_cons. reflexivity. }
+  destruct body as [|c body'].
+  - (* the comment is "/**/": closed at once *)
+    cbn [app ahead]. change (in2 42 42 33) with true. change (42 =? 42) with true. rewrite adv_cons by reflexivity. cbn [ahead andb]. change (47 =? 47) with true. cbv iota.
+    change (47 =? 0) with false. cbv iota. apply adv_cons. reflexivity.
+  - inversion Hb as [|? ? Hc Hb']; subst. destruct (plain_ascii_facts c Hc) as [C0 Cmb].
+    pose proof (no_close_tl _ _ Hn) as Hn'.
+    cbn [app ahead]. rewrite (adv_cons c _ Cmb).
+    destruct (in2 c 42 33) eqn:E1.
+    + (* doc-comment opening: the second byte is an asterisk or an exclamation mark *)
+      assert (NC : ((c =? 42) && (ahead (body' ++ 42 :: 47 :: t) =? 47)) = false).
+      { cbn [app no_close] in Hn. apply andb_true_iff in Hn as [Hn1 _]. apply negb_true_iff in Hn1. rewrite ahead_app_one. exact Hn1. }
+      cbn [andb]. rewrite NC. cbv iota.
+      destruct (ahead (body' ++ 42 :: 47 :: t) =? 60) eqn:E60.
+      * destruct body' as [|x body'']; [cbn in E60; discriminate E60|]. cbn [app ahead] in E60. apply N.eqb_eq in E60. subst x.
+        inversion Hb' as [|? ? Hx Hb'']; subst. cbn [app]. rewrite adv_cons by reflexivity. apply Fin; [assumption|exact (no_close_tl _ _ Hn')].
+      * apply Fin; assumption.
+    + cbn [andb]. cbv iota. destruct (c =? 46) eqn:E46.
+      * apply N.eqb_eq in E46. subst c. unfold sw.
+        change (46 :: body' ++ 42 :: 47 :: t) with ((46 :: body') ++ 42 :: 47 :: t).
+        destruct (sw_isdot_suffix (46 :: body') (42 :: 47 :: t) Hb Hn eq_refl (length ((46 :: body') ++ 42 :: 47 :: t)) ltac:(rewrite app_length; lia)) as [b' [E [A [N L]]]].
+        rewrite E. apply Fin; assumption.
+      * change (c :: body' ++ 42 :: 47 :: t) with ((c :: body') ++ 42 :: 47 :: t). apply Fin; assumption.
+Qed.
+
+Lemma line_scan b t : all plain_ascii b -> all (fun c => negb (c =? 10) && negb (c =? 92)) b ->
+  forall fuel, (length b <= fuel)%nat -> line_comment fuel (b ++ 10 :: t) = 10 :: t.
+Proof.
+  intros Hb Hc. induction b as [|c b IH]; intros fuel Hf.
+  - cbn [app]. destruct fuel; cbn [line_comment]; [reflexivity|]. cbn [ahead]. change (10 =? 10) with true. rewrite orb_true_r. reflexivity.
+  - inversion Hb as [|? ? Hp Hb']; inversion Hc as [|? ? Hq Hc']; subst. destruct (plain_ascii_facts c Hp) as [C0 Cmb].
+    apply andb_true_iff in Hq as [Q1 Q2]. apply negb_true_iff in Q1, Q2.
+    destruct fuel as [|f]; [cbn in Hf; lia|]. cbn [app line_comment ahead]. rewrite C0, Q1, Q2. cbn [orb]. rewrite (adv_cons c _ Cmb). apply IH; [assumption|assumption|cbn in Hf; lia].
+Qed.
+
+Theorem line_comment_scan body t : all plain_ascii body -> all (fun c => negb (c =? 10) && negb (c =? 92)) body ->
+  snd (line_comment_at (body ++ 10 :: t)) = 10 :: t.
+Proof.
+  intros Hb Hc. unfold line_comment_at. cbv zeta. cbn [snd].
+  destruct (in2 (ahead (body ++ 10 :: t)) 47 33) eqn:E.
+  - destruct body as [|c body']; [cbn in E; discriminate E|]. inversion Hb; inversion Hc; subst.
+    cbn [app]. rewrite (adv_cons c _ (proj2 (plain_ascii_facts c ltac:(assumption)))). apply line_scan; [assumption|assumption|rewrite app_length; lia].
+  - apply line_scan; [assumption|assumption|rewrite app_length; lia].
+Qed.
